@@ -193,6 +193,13 @@ func c05Gen(g *core.Gen) {
 			}
 		}
 	}
+	// right after a Create of another generation of the same set (files above 16 KiB)
+	for _, gg := range []int{1, 3} {
+		for _, p := range []int{1, 3} {
+			g.Emit(&c05Case{Sizes: []int{17000, 16500, 20}, Names: c05Names(3, 1), Slice: 1000, Blocks: p, G: gg, Prior: 9})
+			g.Emit(&c05Case{Sizes: []int{16385, 40000}, Names: c05Names(2, 2), Slice: 64, Blocks: p, G: gg, Prior: 9})
+		}
+	}
 	// low-entropy inputs (all-zero slices, zero tails) created right after a Create with another slice size over zero content
 	for _, prior := range []int{7, 8} {
 		for _, cl := range []string{"zero", "trailzero", "periodic", "dupslice"} {
@@ -272,6 +279,21 @@ func c05Run(ci interface{}, r *core.Rec) {
 			case 5:
 				pfs.Put("/e/p1", scen.Content("uniq", r.Seed, 42, c.Slice, c.Slice))
 				ins = append(ins, "/e/p1")
+			case 9:
+				// ANOTHER GENERATION of the judged set: same paths, names, lengths, slice size and first 16 KiB (hence the
+				// same file ids and the same recovery-set id), other content beyond 16 KiB
+				ins = nil
+				pfs = envfs.New()
+				for i, n := range c.Sizes {
+					d := scen.Content(class, r.Seed, i, n, c.Slice)
+					if n > 16384 {
+						alt := scen.Content("uniq", r.Seed+31337, i, n, c.Slice)
+						copy(d[16384:], alt[16384:])
+					}
+					pfs.Put(paths[i], d)
+					ins = append(ins, paths[i])
+				}
+				blocks = c.Blocks
 			}
 			var perr error
 			if ppi := core.Catch(func() {
@@ -281,13 +303,17 @@ func c05Run(ci interface{}, r *core.Rec) {
 				} else if kind == 8 {
 					ps = 4 * c.Slice
 				}
-				perr = par2.VerifCreate(pfs, "/e/t.par2", ins, par2.CreateOptions{SliceByteCount: ps, NumParityShards: blocks, NumGoroutines: c.G})
+				pidx := "/e/t.par2"
+				if kind == 9 {
+					pidx = "/d/s.par2"
+				}
+				perr = par2.VerifCreate(pfs, pidx, ins, par2.CreateOptions{SliceByteCount: ps, NumParityShards: blocks, NumGoroutines: c.G})
 			}); ppi != nil {
 				r.Violate("create-panic:"+ppi.Frame, ppi.Value+"\n"+ppi.Stack)
 			}
 			r.AddTransitions(1)
 			r.Outcome(fmt.Sprintf("prior %d %s", kind, errClass(perr)))
-			if kind != 5 && kind != 7 && kind != 8 && perr == nil {
+			if kind != 5 && kind != 7 && kind != 8 && kind != 9 && perr == nil {
 				r.Count("prior_create_unexpectedly_succeeded", 1)
 			}
 		}
